@@ -21,7 +21,7 @@ func init() {
 				"(reach) the base-coin value of the fee is added to the reward pool (C01.fee: rewardPool.Add of price / the fee swap's output); (burn) ticker-creation fees: RunTx subtracts symbolPrice from the reward pool and credits the same value to the zero address, only for CreateCoin/CreateToken, with symbolPrice = MulGasPrice(PayForSymbol(commissions)) (converted like the fee). " +
 				"(route) every CalculateCommission call compares the pool GetSwapper(X, base) with the reserve of GetCoin(X) for one and the same coin X — the inputs of the cheaper-route choice agree. NOT decided: that the cheaper of pool/reserve route is numerically the cheaper one, rounding of conversions.",
 			Assumptions: stdAssumptions,
-			Rules:       []string{"C27.table", "C27.cover", "C27.formula", "C27.burn", "C27.route"},
+			Rules:       []string{"C27.table", "C27.cover", "C27.formula", "C27.burn", "C27.route", "C27.quote", "C27.order"},
 		},
 		Run: runC27,
 	})
@@ -49,6 +49,8 @@ func isPriceField(v ssa.Value) (string, bool) {
 
 func runC27(c *core.Ctx) {
 	defer checkRouteInputs(c, "C27.route")
+	defer checkPoolQuote(c, "C27.quote")
+	defer checkGasPriceBeforeConversion(c, "C27.order")
 	priceT := c.Named(core.PkgState+"/commission", "Price")
 	if priceT == nil {
 		c.Unk("C27.table", "commission.Price", token.NoPos, "type not found")
@@ -176,13 +178,27 @@ func runC27(c *core.Ctx) {
 	if imp == nil || exp == nil || end == nil || mapper == nil {
 		c.Unk("C27.cover", "anchors", token.NoPos, "State.Import / Commission.Export / EndBlock / live VoteCommission.price not all found")
 	} else {
+		// a reference counts for fn when it is made by fn, a closure of it, or an unexported
+		// helper in fn's own package that fn reaches (a literal moved into a helper is still
+		// fn's work); walking further would let any user of the field count
+		reachMemo := map[*ssa.Function]map[*ssa.Function]*ssa.Function{}
 		inFn := func(refs []*core.FieldRef, fn *ssa.Function) bool {
+			reach, ok := reachMemo[fn]
+			if !ok {
+				reach = c.CG().Reachable([]*ssa.Function{fn}, func(g *ssa.Function) bool {
+					return g != fn && !(core.PkgOf(g) == core.PkgOf(fn) && g.Object() != nil && !g.Object().Exported())
+				})
+				reachMemo[fn] = reach
+			}
 			for _, r := range refs {
 				root := r.Fn
 				for root.Parent() != nil {
 					root = root.Parent()
 				}
 				if root == fn {
+					return true
+				}
+				if _, in := reach[root]; in && core.PkgOf(root) == core.PkgOf(fn) && root.Object() != nil && !root.Object().Exported() {
 					return true
 				}
 			}
@@ -480,4 +496,146 @@ func checkRouteInputs(c *core.Ctx, rule string) {
 		}
 	}
 	c.Floor(rule, n, 38, "CalculateCommission call sites (live handlers + failure branch)")
+}
+
+// checkPoolQuote — C27.quote. A commission paid in a custom coin through its pool is *executed*
+// with the order-book-aware swap (PairSellWithOrders / PairBuyWithOrders). The amount quoted
+// beforehand — what CalculateCommission hands to the handlers as the commission — must come from
+// the order-book-aware calculation too (Calculate…WithOrders, reached through CheckSwap);
+// quoted with the pool-only formula it differs from what is executed whenever a limit order lies
+// in the way, and the payer is charged (and the reward pool credited) something else than
+// price × gas price.
+func checkPoolQuote(c *core.Ctx, rule string) {
+	cc := c.MustFn(rule, core.PkgTx+".CalculateCommission")
+	if cc == nil {
+		return
+	}
+	// the helper whose first result is the pool quote: the callee of CalculateCommission that
+	// takes the swapper
+	var quoteFn *ssa.Function
+	for _, s := range core.Sites(cc) {
+		sc := s.Common.StaticCallee()
+		if sc == nil || core.PkgOf(sc) != core.PkgTx || sc.Blocks == nil {
+			continue
+		}
+		for _, p := range sc.Params {
+			if strings.HasSuffix(p.Type().String(), "swap.EditableChecker") {
+				quoteFn = sc
+			}
+		}
+	}
+	if quoteFn == nil {
+		c.Unk(rule, "CalculateCommission/pool-quote", cc.Pos(), "the helper that quotes the commission through the pool was not found")
+		return
+	}
+	methods := map[string]bool{}
+	var collect func(fn *ssa.Function, idx, depth int)
+	collect = func(fn *ssa.Function, idx, depth int) {
+		if depth > 3 {
+			return
+		}
+		for _, o := range core.ResultOrigins(fn, idx) {
+			var call *ssa.Call
+			ridx := 0
+			switch x := core.Unwrap(o).(type) {
+			case *ssa.Call:
+				call = x
+			case *ssa.Extract:
+				if cl, ok := x.Tuple.(*ssa.Call); ok {
+					call, ridx = cl, x.Index
+				}
+			}
+			if call == nil {
+				continue
+			}
+			if call.Call.IsInvoke() {
+				if strings.Contains(call.Call.Value.Type().String(), "swap.") {
+					methods[call.Call.Method.Name()] = true
+				}
+				continue
+			}
+			if sc := call.Call.StaticCallee(); sc != nil && core.PkgOf(sc) == core.PkgTx && sc.Blocks != nil {
+				collect(sc, ridx, depth+1)
+			}
+		}
+	}
+	collect(quoteFn, 0, 0)
+	var names, bad []string
+	for m := range methods {
+		names = append(names, m)
+		if strings.HasPrefix(m, "Calculate") && !strings.HasSuffix(m, "WithOrders") {
+			bad = append(bad, m)
+		}
+	}
+	sort.Strings(names)
+	sort.Strings(bad)
+	withOrders := false
+	for _, m := range names {
+		if strings.HasPrefix(m, "Calculate") && strings.HasSuffix(m, "WithOrders") {
+			withOrders = true
+		}
+	}
+	c.Check(withOrders && len(bad) == 0, rule, "CalculateCommission/pool-quote", quoteFn.Pos(), "the pool quote of the commission comes from "+strings.Join(names, ", "),
+		fmt.Sprintf("the commission quoted for payment through the pool comes from %v — a pool-only calculation (%v) — while the payment itself is executed against pool and limit orders: quote and execution disagree whenever an order lies in the way", names, bad))
+}
+
+// checkGasPriceBeforeConversion — C27.order. When the price table is denominated in a custom
+// coin, the fee is first multiplied by the gas price *in that coin* and the product is converted
+// to the base coin through the pool (price := MulGasPrice(Price(table)); price = CheckSwap(…,
+// price, …)). A pool quote is not linear, so sell(gasPrice·x) ≠ gasPrice·sell(x): both fee
+// computations of RunTx (accepted and failed transaction) have to multiply before converting.
+// Decided: every conversion through the pool of the price coin takes an amount that derives from
+// tx.MulGasPrice, and no MulGasPrice is applied to an amount that derives from such a conversion.
+func checkGasPriceBeforeConversion(c *core.Ctx, rule string) {
+	fn := c.RunTx()
+	if fn == nil {
+		c.Unk(rule, "RunTx", token.NoPos, "live RunTx not found")
+		return
+	}
+	isMul := func(v ssa.Value) bool {
+		call, ok := core.Unwrap(v).(*ssa.Call)
+		return ok && strings.HasSuffix(core.CalleeName(&call.Call), ".MulGasPrice")
+	}
+	isConversion := func(s *core.Site) bool {
+		if !strings.HasSuffix(s.Callee, "transaction.CheckSwap") || len(s.Common.Args) < 4 {
+			return false
+		}
+		// the swapper is the pool of the price-table coin
+		return strings.Contains(core.Path(s.Common.Args[0]), "GetSwapper(") && strings.Contains(core.Path(s.Common.Args[0]), ".Coin")
+	}
+	n := 0
+	for _, s := range core.Sites(fn) {
+		if !isConversion(s) {
+			continue
+		}
+		n++
+		amount := s.Common.Args[3]
+		fromMul := isMul(amount)
+		for _, o := range core.Origins(amount) {
+			if isMul(o) {
+				fromMul = true
+			}
+		}
+		c.Check(fromMul, rule, fmt.Sprintf("RunTx/conversion#%d", n), s.Pos(), "the amount converted from the price coin to the base coin is already multiplied by the gas price",
+			"the amount converted from the price coin to the base coin through the pool does not come from tx.MulGasPrice: the gas price is applied after the conversion (or not at all), and a pool quote is not linear in the amount")
+	}
+	k := 0
+	for _, s := range core.Sites(fn) {
+		if !strings.HasSuffix(s.Callee, ".MulGasPrice") {
+			continue
+		}
+		k++
+		arg := s.Arg(0)
+		afterConv := core.DependsOn(arg, func(v ssa.Value) bool {
+			ex, ok := v.(*ssa.Extract)
+			if !ok {
+				return false
+			}
+			call, ok := ex.Tuple.(*ssa.Call)
+			return ok && strings.HasSuffix(core.CalleeName(&call.Call), "transaction.CheckSwap")
+		})
+		c.Check(!afterConv, rule, fmt.Sprintf("RunTx/MulGasPrice#%d", k), s.Pos(), "the gas price multiplies an amount of the price table, not a converted one",
+			"tx.MulGasPrice is applied to an amount that already went through the pool conversion: gasPrice × sell(x) instead of sell(gasPrice × x)")
+	}
+	c.Floor(rule, n, 2, "price-coin conversions in RunTx")
 }
